@@ -15,17 +15,20 @@ decl:  obj <id> <parent|-> <inherited csv|-> <module docformat f|-> <docstring u
        ty <k> <M> <S>                               ParsedTypeDocstring built from field body k
        plain <N> <W> <T>                            ParsedPlaintextDocstring.to_node / walk / toc (default)
        plainfor <u:text> <N> <W> <T>                same, for that text only
+       xo <id> <isAttribute 0/1> <annotation k|-> <constant k|-> <signature -|S> <bases csv|-> <decorators csv|->
 op:    e:<obj> ensure_parsed_docstring   d:<obj> format_docstring   s:<obj> format_summary
-       t:<obj> format_toc                x:<obj> extract_fields (parse + store)
+       t:<obj> format_toc                x:<obj> extract_fields     y:<obj> type2stan
+       c:<obj> format_constant_value     g:<obj> format_signature   b:<obj> format_class_signature
+       r:<obj> format_decorators         q:<obj> search.format_docstring
 
 f   e r g n p u (epytext restructuredtext google numpy plaintext unknown)
 exc p<n> ParseError | ni NotImplementedError | as AssertionError | o<n> other Exception
 S   r<n> to_stan returns stan n | x<exc>          N   r | x<exc>
 W   s<k> summary = PD k | n none | x<exc>          T   c<k> contents → PD k | e empty | x<exc>
-M   r<warning ids csv|-> | x<exc>                 F   - | csv of <isType 0/1>/<body k>/<lineno>
+M   r<warning ids csv|-> | x<exc>                 F   - | csv of <tag 0 plain,1 rtype,2 type,3 ivar>/<body k>/<lineno>[/<arg obj|->]
 errs  - | `;`-joined <descr n>/<line|n>/<fatal 0/1>
 ```
-Answer: `ok <out> ; <out> … | E <sec>.<obj>,… | R <obj>.<sec>.<descr>.<offset>,… | M <0|1> | O <id>=<parsed>/<summary> …`
+Answer: `ok <out> ; <out> … | E <sec>.<obj>,… | R <obj>.<sec>.<descr>.<offset>,… | M <0|1> | O <id>=<parsed>/<summary>/<parsed_type> …`
 -/
 namespace Docstring
 
@@ -73,13 +76,25 @@ def parseTypedOut (s : String) : Option TypedOut :=
   else if s.startsWith "x" then (parseExc (s.drop 1).toString).map .raises
   else none
 
+def parseTag : String → Option FieldTag
+  | "0" => some .plain | "1" => some .rtype | "2" => some .typ | "3" => some .ivar | _ => none
+
+def showTag : FieldTag → String
+  | .plain => "0" | .rtype => "1" | .typ => "2" | .ivar => "3"
+
 def parseField (s : String) : Option Field :=
   match s.splitOn "/" with
   | [t, k, l] => do
-    let t ← t.toNat?
+    let t ← parseTag t
     let k ← k.toNat?
     let l ← l.toNat?
-    some ⟨t != 0, .user k, l⟩
+    some ⟨t, none, .user k, l⟩
+  | [t, k, l, a] => do
+    let t ← parseTag t
+    let k ← k.toNat?
+    let l ← l.toNat?
+    let a ← if a == "-" then some none else a.toNat?.map some
+    some ⟨t, a, .user k, l⟩
   | _ => none
 
 def parseFields (s : String) : Option (List Field) :=
@@ -127,6 +142,16 @@ structure ObjDecl where
   modfmt : Option Docformat
   st : ObjSt
 
+/-- `xo <id> <isAttribute 0/1> <annotation k|-> <const k|-> <sig -|S> <bases csv|-> <decorators csv|->` -/
+structure XDecl where
+  id : Obj
+  isAttr : Bool
+  ann : Option Nat
+  const : Nat
+  sig : Option StanOut
+  bases : List Nat
+  decs : List Nat
+
 structure Decls where
   objs : List ObjDecl := []
   pars : List ParSpec := []
@@ -136,6 +161,7 @@ structure Decls where
   plainWalk : WalkOut := .nothing
   plainToc : TocOut := .empty
   plainFor : List (Text × NodeOut × WalkOut × TocOut) := []
+  xos : List XDecl := []
 
 def lookupPd (d : Decls) (k : Nat) : PdSpec :=
   match d.pds.find? (·.1 == k) with
@@ -165,7 +191,15 @@ def parseDecls : Nat → List String → Decls → Option (Decls × List String)
     let mf ← if mf == "-" then some none else (parseFmt mf).map some
     let doc ← if doc == "N" then some none else (Proto.decodeStr doc).map some
     let parsed ← parsePdRef d parsed
-    parseDecls fuel rest { d with objs := d.objs ++ [⟨id, par, inh, mf, ⟨doc, parsed, none⟩⟩] }
+    parseDecls fuel rest { d with objs := d.objs ++ [⟨id, par, inh, mf, ⟨doc, parsed, none, none⟩⟩] }
+  | fuel+1, "xo" :: id :: a :: ann :: c :: sg :: bs :: ds :: rest, d => do
+    let id ← id.toNat?
+    let ann ← parseOptNat ann
+    let c ← parseOptNat c
+    let sg ← if sg == "-" then some none else (parseStanOut sg).map some
+    let bs ← Proto.natList bs
+    let ds ← Proto.natList ds
+    parseDecls fuel rest { d with xos := d.xos ++ [⟨id, a == "1", ann, c.getD 0, sg, bs, ds⟩] }
   | fuel+1, "par" :: f :: o :: "ret" :: arg :: errs :: rest, d => do
     let f ← parseFmt f
     let o ← o.toNat?
@@ -210,13 +244,16 @@ def plainSpec (d : Decls) (t : Text) : NodeOut × WalkOut × TocOut :=
   | some p => p.2
   | none => (d.plainNode, d.plainWalk, d.plainToc)
 
-def parseOp (s : String) : Option (Op × Obj) :=
+def parseOp (s : String) : Option (XOp × Obj) :=
   match s.splitOn ":" with
   | [o, n] => do
     let n ← n.toNat?
     let o ← match o with
-      | "e" => some Op.ensure | "d" => some Op.doc | "s" => some Op.summary
-      | "t" => some Op.toc | "x" => some Op.extract | _ => none
+      | "e" => some (XOp.core .ensure) | "d" => some (XOp.core .doc) | "s" => some (XOp.core .summary)
+      | "t" => some (XOp.core .toc) | "x" => some (XOp.core .extract)
+      | "y" => some XOp.typ | "c" => some XOp.const | "g" => some XOp.sig
+      | "b" => some XOp.classSig | "r" => some XOp.decorators | "q" => some XOp.search
+      | _ => none
     some (o, n)
   | _ => none
 
@@ -248,9 +285,15 @@ def mkEnv (pt : Bool) (td : Nat) (sys : Docformat) (d : Decls) : Env where
     | .user k _ => (lookupPd d k).toc
     | .plain t => (plainSpec d t).2.2
     | .stanOnly _ => .empty
+  isAttribute := fun o => match d.xos.find? (·.id == o) with | some x => x.isAttr | none => false
+  annotation := fun o => match d.xos.find? (·.id == o) with | some x => x.ann | none => none
+  constPd := fun o => match d.xos.find? (·.id == o) with | some x => x.const | none => 0
+  sigOut := fun o => match d.xos.find? (·.id == o) with | some x => x.sig | none => none
+  bases := fun o => match d.xos.find? (·.id == o) with | some x => x.bases | none => []
+  decorators := fun o => match d.xos.find? (·.id == o) with | some x => x.decs | none => []
 
 def mkSt (d : Decls) : St where
-  objs := fun o => match d.objs.find? (·.id == o) with | some x => x.st | none => ⟨none, none, none⟩
+  objs := fun o => match d.objs.find? (·.id == o) with | some x => x.st | none => ⟨none, none, none, none⟩
   errors := []
   reports := []
   importMsg := false
@@ -263,13 +306,15 @@ def showStan : Stan → String
   | .brokenSummary => "brokensum"
   | .noSummary => "nosum"
   | .opaque n => "o" ++ toString n
+  | .code => "code"
+  | .sigBroken => "sigbroken"
 
 def showBody : Body → String
   | .user k => "u" ++ toString k
   | .typed k => "t" ++ toString k
 
 def showField (f : Field) : String :=
-  (if f.isType then "1" else "0") ++ "/" ++ showBody f.body ++ "/" ++ toString f.lineno
+  showTag f.tag ++ "/" ++ showBody f.body ++ "/" ++ toString f.lineno
 
 def showPd : Option PD → String
   | none => "N"
@@ -293,6 +338,23 @@ def showOut : Out → String
   | .toc (.raises e) => "raise:" ++ showExc e
   | .extract (.ok _) => "ext=ok"
   | .extract (.raises e) => "raise:" ++ showExc e
+
+def showRes {α : Type} (f : α → String) : Res α → String
+  | .ok a => f a
+  | .raises e => "raise:" ++ showExc e
+
+def showXOut : XOut → String
+  | .core o => showOut o
+  | .typ r => showRes (fun o => match o with | none => "typ=N" | some s => "typ=" ++ showStan s) r
+  | .stan r => showRes (fun s => "st=" ++ showStan s) r
+  | .stans r => showRes (fun l => "sts=[" ++ ",".intercalate (l.map showStan) ++ "]") r
+  | .search r => showRes (fun o => match o with
+      | .none => "srch=N" | .nodeText => "srch=node"
+      | .docstring none => "srch=doc:N" | .docstring (some t) => "srch=doc:" ++ Proto.encodeStr t) r
+
+def showPType : Option Body → String
+  | none => "N"
+  | some b => showBody b
 
 def showDescr : Descr → String
   | .msg n => "m" ++ toString n
@@ -334,14 +396,15 @@ def handle (args : List String) : String :=
       | none => "bad-op"
       | some ops =>
         let env := mkEnv (pt == "1") td sys d
-        let r := run env (mkSt d) ops
+        let r := xrun env (mkSt d) ops
         let st := r.2
-        "ok " ++ " ; ".intercalate (r.1.map showOut)
+        "ok " ++ " ; ".intercalate (r.1.map showXOut)
           ++ " | E " ++ showList ((st.errors.mergeSort pairLe).map fun p => toString p.1 ++ "." ++ toString p.2)
           ++ " | R " ++ showList (st.reports.map showReport)
           ++ " | M " ++ (if st.importMsg then "1" else "0")
           ++ " | O " ++ " ".intercalate (d.objs.map fun o =>
-                toString o.id ++ "=" ++ showPd (st.objs o.id).parsed ++ "/" ++ showPd (st.objs o.id).parsedSummary)
+                toString o.id ++ "=" ++ showPd (st.objs o.id).parsed ++ "/" ++ showPd (st.objs o.id).parsedSummary
+                  ++ "/" ++ showPType (st.objs o.id).ptype)
     | _, _, _, _ => "bad-op"
   | _ => "bad-op"
 
